@@ -41,6 +41,10 @@ namespace nmtools::index
             for (nm_index_t i=1; i<=nm_index_t(n_planes); i++) {
                 at(result,-i) = at(src_shape,-i);
             }
+            // batched input (N,C,...): keep the batch extent (it was left at 1, so any N>1 failed to reshape)
+            if ((nm_index_t)src_dim == (nm_index_t)n_planes + 2) {
+                at(result,0) = at(src_shape,0);
+            }
         }
         
         return result;
